@@ -5,9 +5,8 @@
     text, one statement -> one line; the expressions of those statements are built from the primitives
     below, each of which is the model-side reading of ONE Python operation on the model's types
     (Base/Value.v [value], Diff/Tree.v [entry]).  None of the functions of Diff/DiffModel.v that the
-    translator re-derives ([diff], [diff_atom], [diff_str], [diff_set], the dict part of [diff]) is used
-    here; [hand_iterable_in_order] is the stand-in for the one comparer that is NOT translated
-    ([_diff_iterable_in_order] and below: tied by correspondence only).
+    translator re-derives ([diff], [diff_atom], [diff_str], [diff_set], [pairs_leaf], [by_opcodes],
+    [default_leaf_list], the dict and sequence parts of [diff]) is used here.
     Definitions only.  Every definition is part of the trusted base of the tie (NOTES_srctie.md). *)
 From Coq Require Import List ZArith NArith Bool Arith.
 Import ListNotations.
@@ -50,8 +49,13 @@ Definition child_path (r : relclass) (p : path) (x : param) : path :=
   | _, PmIdx i => snoc p (PIdx i)
   | _, PmNone => p
   end.
+(* DiffLevel.auto_generate_child_rel: the t2 relationship gets param2 (param when param2 is None); a side whose child
+   is notpresent gets NO relationship, and path() / path(use_t2=True) then follow the other side's *)
 Definition branch_deeper (l : level) (a b : obj) (r : relclass) (x1 x2 : param) : level :=
-  mkLevel a b (child_path r (lp1 l) x1) (child_path r (lp2 l) x2) None.
+  let x2 := match x2 with PmNone => x1 | _ => x2 end in
+  let y1 := match a with None => x2 | Some _ => x1 end in
+  let y2 := match b with None => x1 | Some _ => x2 end in
+  mkLevel a b (child_path r (lp1 l) y1) (child_path r (lp2 l) y2) None.
 
 (* self._skip_this(level): the model's oracle on level.path() *)
 Definition skip_this (skip : path -> bool) (l : level) : bool := skip (lp1 l).
@@ -155,27 +159,46 @@ Definition ht_item (t : list (pystr * atom)) (h : pystr) : atom :=
 (* `level.t1._asdict` does not raise AttributeError: no namedtuple in the universe *)
 Definition has_asdict (o : obj) : bool := false.
 
-(* ---- the comparer that is not translated: _diff_iterable_in_order (and what it calls) on lists / tuples,
-   as DiffModel.diff has it, with [d] for the recursive calls of self._diff ---- *)
+(* ---- sequences (_diff_iterable_in_order and the methods below it) ---- *)
 Definition seq_items (o : obj) : list value :=
   match o with Some (VList xs) | Some (VTuple xs) => xs | _ => [] end.
-Definition hand_iterable_in_order (udiff : pystr -> pystr -> pystr)
-    (ops : path -> list value -> list value -> list opcode) (skip : path -> bool) (c : cfg)
-    (d : level -> res) (l : level) : res :=
-  let xs := seq_items (lt1 l) in
-  let ys := seq_items (lt2 l) in
-  let p1 := lp1 l in
-  let p2 := lp2 l in
-  if negb (zip c) && forallb is_atom xs && forallb is_atom ys
-  then let '(es, rec) := default_leaf_list udiff ops skip xs ys p1 p2 in (es, if rec then [p1] else [])
-  else
-    (fix go (xs ys : list value) (i : nat) {struct xs} : res :=
-       match xs, ys with
-       | [], _ => (added_from skip ys i p1 p2, [])
-       | _ :: _, [] => (removed_from skip xs i p1 p2, [])
-       | x :: xs', y :: ys' =>
-           app2 (d (mkLevel (Some x) (Some y) (snoc p1 (PIdx i)) (snoc p2 (PIdx i)) None)) (go xs' ys' (S i))
-       end) xs ys 0.
+(* iterating a list / tuple; an item or the fill value ListItemRemovedOrAdded of zip_longest (= None) *)
+Definition iter_items (o : obj) : list obj := map (@Some value) (seq_items o).
+Definition is_fill (o : obj) : bool := match o with None => true | Some _ => false end.
+(* itertools.zip_longest(a, b, fillvalue=ListItemRemovedOrAdded) *)
+Fixpoint zip_longest (xs ys : list obj) {struct xs} : list (obj * obj) :=
+  match xs with
+  | [] => map (fun y => (None, y)) ys
+  | x :: xs' =>
+      match ys with
+      | [] => (x, None) :: map (fun x' => (x', None)) xs'
+      | y :: ys' => (x, y) :: zip_longest xs' ys'
+      end
+  end.
+Fixpoint enum_from {A} (n : nat) (l : list A) : list (nat * A) :=
+  match l with [] => [] | x :: r => (n, x) :: enum_from (S n) r end.
+Definition enumerate {A} (l : list A) : list (nat * A) := enum_from 0 l.
+(* an index parameter that may be None *)
+Definition oget (o : option nat) : nat := match o with Some n => n | None => 0 end.
+Definition onat_is_None (o : option nat) : bool := match o with None => true | Some _ => false end.
+(* seq[a:b] (None = from the start / to the end) *)
+Definition py_slice (o : obj) (a b : option nat) : list obj :=
+  match b with
+  | Some n => slice (iter_items o) (oget a) n
+  | None => skipn (oget a) (iter_items o)
+  end.
+(* difflib.SequenceMatcher(isjunk=None, a=level.t1, b=level.t2, autojunk=False).get_opcodes(): the oracle *)
+Definition get_opcodes (ops : path -> list value -> list value -> list opcode) (l : level) : list opcode :=
+  ops (lp1 l) (seq_items (lt1 l)) (seq_items (lt2 l)).
+Definition optag_eqb (a b : optag) : bool :=
+  match a, b with
+  | OEqual, OEqual | OReplace, OReplace | ODelete, ODelete | OInsert, OInsert => true
+  | _, _ => false
+  end.
+(* self._all_values_basic_hashable(seq): every item is a str / bytes / number / bool / None *)
+Definition all_values_basic_hashable (o : obj) : bool := forallb is_atom (seq_items o).
+(* DeepDiff._iterables_subscriptable(t1, t2): lists and tuples have __getitem__ *)
+Definition iterables_subscriptable (a b : obj) : bool := true.
 
 (* ---- the environment of a run: the oracles and the configuration of Diff/DiffModel.v,
    and has_excl = bool(self.exclude_paths) ---- *)
